@@ -26,8 +26,9 @@ ASSUMPTIONS = [
     "AU=1000 mAU",
     "which pairs are comparable is NOT prescribed by the oracle (vol% vs wt% is deliberately rejected by the code); only "
     "order independence is asserted, and the operator laws only for pairs the code itself declares comparable",
-    "values are decimal strings with <= 20 significant digits whose exact images in the common unit need <= 26 digits, so "
-    "that the 28-digit Decimal context is not what is being tested",
+    "values are decimal strings with <= 20 significant digits whose exact images in the common unit need <= 26 digits, "
+    "and unequal quantities differ by >= 1e-22 relative to their magnitude in unit a, unit b and the base unit (offsets "
+    "can push a value next to zero), so that the 28-digit Decimal context is not what is being tested",
     "the alias '==' is exercised but only counted",
 ]
 REQUIRED = {"pairs_symmetry_checked": 2000, "comparable_pairs": 100, "operator_calls": 20000, "equal_after_conversion_cases": 500,
@@ -201,6 +202,25 @@ def usable(ua, x: F, ub, y: F) -> bool:
     return True
 
 
+REL_SEPARATION = F(1, 10 ** 22)
+
+
+def resolvable(ua, x: F, ub, y: F) -> bool:
+    """unequal quantities must stay apart by >= 1e-22 of their magnitude in every representation a decimal
+    implementation may pick (unit a, unit b, base unit): an offset can move a value next to zero or far away from it,
+    and then the 28-digit context - not the comparison logic - would decide"""
+    bx, by = base(ua, x), base(ub, y)
+    if bx == by:
+        return True
+    _, fa, oa = entry(ua)
+    _, fb, ob = entry(ub)
+    for p, q in ((x, (by - oa) / fa), ((bx - ob) / fb, y), (bx, by)):
+        m = max(abs(p), abs(q))
+        if m != 0 and abs(p - q) < REL_SEPARATION * m:
+            return False
+    return True
+
+
 def equal_pair(rnd: random.Random, ua, ub):
     """(x, y) with base(ua,x) == base(ub,y), both terminating decimals; None if none was found"""
     for _ in range(12):
@@ -271,18 +291,18 @@ def gen_value_pairs(rnd: random.Random, ua, ub, n: int):
         x, y = p
         if rnd.random() < 0.5:
             x2, k = nudge(rnd, x)
-            if x2 is None or not usable(ua, x2, ub, y):
+            if x2 is None or not usable(ua, x2, ub, y) or not resolvable(ua, x2, ub, y):
                 continue
             out.append((f"digit{k}", x2, y, frac_to_str(x2), frac_to_str(y)))
         else:
             y2, k = nudge(rnd, y)
-            if y2 is None or not usable(ua, x, ub, y2):
+            if y2 is None or not usable(ua, x, ub, y2) or not resolvable(ua, x, ub, y2):
                 continue
             out.append((f"digit{k}", x, y2, frac_to_str(x), frac_to_str(y2)))
     for _ in range(n_rand):
         x = rand_decimal(rnd, 17, -12, 14)
         y = rand_decimal(rnd, 17, -12, 14)
-        if usable(ua, x, ub, y):
+        if usable(ua, x, ub, y) and resolvable(ua, x, ub, y):
             out.append(("random", x, y, frac_to_str(x), frac_to_str(y)))
     return out
 
